@@ -40,10 +40,26 @@ def week_of_date(s):
 
 
 def chars(s):
-    return ['NL' if c == '\n' else c for c in s]
+    """A name as Approval.tla sees it: one string per character; newline is
+    "NL"; a byte that is not valid UTF-8 (kept by Python as a lone surrogate,
+    surrogateescape) is "xHH" (no real character is three characters long)."""
+    return ['NL' if c == '\n' else ('x%02X' % (ord(c) - 0xDC00) if 0xDC80 <= ord(c) <= 0xDCFF else c) for c in s]
+
+
+def has_raw_bytes(s):
+    return any(0xDC80 <= ord(c) <= 0xDCFF for c in s)
+
+
+def coerced(s):
+    """What encoding/json makes of a name: every invalid byte becomes U+FFFD."""
+    return ''.join('\ufffd' if 0xDC80 <= ord(c) <= 0xDCFF else c for c in s)
 
 
 # ------------------------------------------------------------------ TLC: MC modules
+# local counters present with value 0 (approved under some configurations of the names family)
+ZERO_TOKENS = {'cc:a', 's2\nf1'}
+
+
 def mc_tables(*modules):
     """NameOf / ValOf constants: every string literal of the given modules is a
     token (a superset of the name tokens; harmless)."""
@@ -53,7 +69,7 @@ def mc_tables(*modules):
             lits |= set(tlaval._unescape(x) for x in re.findall(r'"((?:[^"\\]|\\.)*)"', f.read()))
     lits = sorted(lits)
     nameof = ' @@ '.join('%s :> %s' % (tlaval.to_tla(s), tlaval.to_tla(chars(s))) for s in lits)
-    valof = ' @@ '.join('%s :> %d' % (tlaval.to_tla(s), i + 1) for i, s in enumerate(lits))
+    valof = ' @@ '.join('%s :> %d' % (tlaval.to_tla(s), 0 if s in ZERO_TOKENS else i + 1) for i, s in enumerate(lits))
     return 'MCNameOf == (%s)\nMCValOf == (%s)\n' % (nameof, valof)
 
 
@@ -114,20 +130,30 @@ def scale_cfg(cfg, k):
     return c
 
 
-def concrete_file(f):
-    end = week_end(f['week'])
+ACTIVE_END = datetime.date(2024, 3, 4)      # after START: a file that is still active
+
+
+def concrete_file(f, scale=0):
+    """scale: every value is multiplied by 2**scale (64-bit values; see ScaleOf)."""
+    end = week_end(f['week']) if f.get('expired', True) else ACTIVE_END
     begin = end - datetime.timedelta(days=7)
     b = f['build']
+
+    def cnt(c):
+        v = c['v'] << scale
+        if has_raw_bytes(c['n']):
+            return [c['n'].encode('utf-8', 'surrogateescape').hex(), v, 1]
+        return [c['n'], v]
     return {'program': b['program'], 'version': b['version'], 'gover': b['gover'], 'goos': b['goos'], 'goarch': b['goarch'],
             'begin': begin.isoformat() + 'T00:00:00Z', 'end': end.isoformat() + 'T00:00:00Z',
-            'counts': [[c['n'], c['v']] for c in sorted(f['counts'], key=lambda c: c['n'])]}
+            'counts': [cnt(c) for c in sorted(f['counts'], key=lambda c: c['n'])]}
 
 
-def step_of(cfg, d, files, x, reply=200, cfgver='v0.77.0', xs=None):
+def step_of(cfg, d, files, x, reply=200, cfgver='v0.77.0', xs=None, scale=0):
     """One uploader run.  xs: the values (over d) that the successive random draws
     of the run return, cyclically (default: x for every draw)."""
     return {'cfg': concrete_cfg(cfg, d), 'cfgver': cfgver, 'x': x / d, 'xs': [y / d for y in (xs or [x])], 'reply': reply,
-            'files': [concrete_file(f) for f in sorted(files, key=lambda f: f['id'])], 'start': START_S}
+            'files': [concrete_file(f, scale) for f in sorted(files, key=lambda f: f['id'])], 'start': START_S}
 
 
 # ------------------------------------------------------------------ decoding what the uploader did
@@ -179,9 +205,9 @@ class Body:
                 self.data.add((b, n, v))
 
 
-def tdata(lst):
+def tdata(lst, scale=0):
     """TLC's [b, n, v] records -> set of (build tuple, name, value)."""
-    return set((btuple(t['b']), t['n'], t['v']) for t in lst)
+    return set((btuple(t['b']), t['n'], t['v'] << scale) for t in lst)
 
 
 # ------------------------------------------------------------------ abstraction for ApprovalTrace
@@ -193,8 +219,13 @@ def abs_cfg(cfg):
 
 
 def abs_files(files):
-    return [{'id': f['id'], 'build': f['build'], 'week': f['week'],
+    return [{'id': f['id'], 'build': f['build'], 'week': f['week'], 'expired': f.get('expired', True),
              'counts': [{'n': chars(c['n']), 'v': c['v']} for c in f['counts']]} for f in files]
+
+
+def coerced_files(files):
+    """The files as their local report shows them (names through encoding/json)."""
+    return [dict(f, counts=[dict(c, n=coerced(c['n'])) for c in f['counts']]) for f in files]
 
 
 def abs_data(data):
@@ -203,19 +234,19 @@ def abs_data(data):
 
 # ------------------------------------------------------------------ the random generator
 PROGRAMS = ['example.com/cmd/p1', 'example.com/cmd/p2', 'golang.org/x/tools/gopls', 'cmd/go', 'example.com/cmd/p1/sub', 'example.com/cmd/p',
-            'example.com/cmd', 'golang.org/x/tools']
+            'example.com/cmd', 'golang.org/x/tools', 'example.com/cmd/π', '']
 # program paths and counter names share the '/' separator: pairs (P, P/x) whose strings split into (program, name) in two ways
 NESTED = [('example.com/cmd', 'example.com/cmd/p1'), ('example.com/cmd/p1', 'example.com/cmd/p1/sub'), ('golang.org/x/tools', 'golang.org/x/tools/gopls'),
           ('example.com/cmd', 'example.com/cmd/p1/sub')]
-VERSIONS = ['v1.0.0', 'v1.1.0', 'v0.9.0', 'devel', 'go1.21.0', 'v1.0.0-pre', '']
-GOVERS = ['go1.21.0', 'go1.22.1', 'go1.20.3', 'go1.21', 'devel +abc']
-GOOSES = ['linux', 'darwin', 'windows', 'plan9', 'Linux']
-GOARCHES = ['amd64', 'arm64', '386', 'amd64p32']
-CHARTS = ['c', 'gopls/client', 'go/errors', 'x', 's', 'crash/crash', 'aa', 'a.b', 'p<q&r', 'q"t']
-BUCKETS = ['a', 'b', 'ab', '1', '2', '10', 'other', 'true', 'go1.21', 'x-y', 'A']
-STACKS = ['s', 'crash/crash', 'gopls/bug', 'c', 'x', 'go.bug', 's<t&u']
+VERSIONS = ['v1.0.0', 'v1.1.0', 'v0.9.0', 'devel', 'go1.21.0', 'v1.0.0-pre', '', 'v1.0.0+é']
+GOVERS = ['go1.21.0', 'go1.22.1', 'go1.20.3', 'go1.21', 'devel +abc', '']
+GOOSES = ['linux', 'darwin', 'windows', 'plan9', 'Linux', '']
+GOARCHES = ['amd64', 'arm64', '386', 'amd64p32', '']
+CHARTS = ['c', 'gopls/client', 'go/errors', 'x', 's', 'crash/crash', 'aa', 'a.b', 'p<q&r', 'q"t', 'ünï/cöde', '日本', 'tab\there']
+BUCKETS = ['a', 'b', 'ab', '1', '2', '10', 'other', 'true', 'go1.21', 'x-y', 'A', 'ß', '語', 'a b', 'a:b', 'a/b']
+STACKS = ['s', 'crash/crash', 'gopls/bug', 'c', 'x', 'go.bug', 's<t&u', 'паника', 's\t']
 FRAMES = ['f1', 'f2', 'main.main:12', 'runtime.goexit:+1', 'a/b.F:3', 'g', 'pkg.(*T).M:7', '']
-NAMECHARS = ['a', 'b', 'c', ':', '{', '}', ',', ' ', 's', '.', '/', '-', 'A', '<', '&', '"', '1']
+NAMECHARS = ['a', 'b', 'c', ':', '{', '}', ',', ' ', 's', '.', '/', '-', 'A', '<', '&', '"', '1', 'é', '日', '\t', '\r', '\\', "'", 'ß']
 
 
 class Sem:
@@ -330,8 +361,14 @@ def rand_cfg(rng, d):
     else:
         for name in rng.sample(PROGRAMS, rng.choice([1, 1, 2, 2, 3])):
             progs.append(rand_prog(rng, d, name))
-    return {'goos': rng.sample(GOOSES[:4], rng.choice([1, 2, 3])), 'goarch': rng.sample(GOARCHES[:3], rng.choice([1, 2])),
-            'gover': rng.sample(GOVERS, rng.choice([1, 2, 3])), 'sample': rng.choice([0, 0, 0, d, d, d // 2, rng.randint(1, d)]),
+    if rng.random() < 0.04:
+        progs = []                                    # a configuration without programs
+    for pr in progs:
+        if rng.random() < 0.04:
+            pr['versions'] = []                       # a program without versions
+    # the lists may be empty, and may list the empty string (a metadata line without value)
+    return {'goos': rng.sample(GOOSES, rng.choice([0, 1, 1, 2, 2, 3, 3, 3])), 'goarch': rng.sample(GOARCHES, rng.choice([0, 1, 1, 1, 2, 2, 2, 3])),
+            'gover': rng.sample(GOVERS, rng.choice([0, 1, 1, 1, 2, 2, 2, 3, 3])), 'sample': rng.choice([0, 0, 0, d, d, d // 2, rng.randint(1, d)]),
             'progs': progs}
 
 
@@ -363,7 +400,8 @@ def rand_build(rng, cfg):
     """Mostly an approved build, often with one field replaced."""
     if cfg['progs'] and rng.random() < 0.9:
         p = rng.choice(cfg['progs'])
-        b = [p['name'], rng.choice(p['versions']), rng.choice(cfg['gover']), rng.choice(cfg['goos']), rng.choice(cfg['goarch'])]
+        b = [p['name'], rng.choice(p['versions'] or VERSIONS), rng.choice(cfg['gover'] or GOVERS), rng.choice(cfg['goos'] or GOOSES),
+             rng.choice(cfg['goarch'] or GOARCHES)]
     else:
         b = [rng.choice(PROGRAMS), rng.choice(VERSIONS), rng.choice(GOVERS), rng.choice(GOOSES), rng.choice(GOARCHES)]
     if rng.random() < 0.4:
@@ -416,16 +454,51 @@ def rand_local_names(rng, cfg, prog, k):
     return sorted(names)
 
 
-def rand_case(rng, d, nweeks=2):
+def rand_case(rng, d, nweeks=3, raw_bytes=False, big=False):
+    """raw_bytes: some local names carry bytes that are not valid UTF-8.
+    big: a collapsed entry with dozens of buckets, a file with well over a
+    hundred counters (more than one page of the count file) and a long name."""
     cfg = rand_cfg(rng, d)
+    bigprog = None
+    if big:
+        if not cfg['progs']:
+            cfg['progs'].append(rand_prog(rng, d, PROGRAMS[0]))
+        pr = bigprog = rng.choice(cfg['progs'])
+        pr['versions'] = pr['versions'] or ['v1.0.0']
+        for k, pool in (('gover', GOVERS), ('goos', GOOSES), ('goarch', GOARCHES)):
+            cfg[k] = cfg[k] or [pool[0]]
+        have = set(e for c in pr['counters'] for e in Sem.expand(c['name']))
+        nb = rng.choice([40, 64])
+        ent = 'wide/chart:{' + ','.join('b%d' % i for i in range(nb)) + '}'
+        long_name = 'long/' + 'n' * rng.choice([255, 300, 1000])
+        if not have & (set(Sem.expand(ent)) | {long_name}):
+            pr['counters'].append({'name': ent, 'rate': d})
+            pr['counters'].append({'name': long_name, 'rate': d})
     files = []
+    bad_byte = rng.choice(['\udcff', '\udc80', '\udcfe'])
     builds = [rand_build(rng, cfg) for _ in range(rng.choice([1, 2, 2, 3]))]
+    if bigprog is not None:      # the big file belongs to a build the configuration approves
+        builds[0] = bdict([bigprog['name'], bigprog['versions'][0], cfg['gover'][0], cfg['goos'][0], cfg['goarch'][0]])
     for i in range(rng.choice([1, 2, 3, 4])):
-        b = rng.choice(builds)
+        b = builds[0] if (big and i == 0) else rng.choice(builds)
         names = rand_local_names(rng, cfg, b['program'], rng.choice([1, 2, 4, 6, 9]))
-        big = rng.random() < 0.1
-        files.append({'id': i + 1, 'build': b, 'week': rng.randint(1, nweeks),
-                      'counts': [{'n': n, 'v': rng.randint(1, 10 ** 8 if big else 50)} for n in names]})
+        if big and i == 0:
+            extra = set('wide/chart:b%d' % k for k in range(0, 70, 1)) | set('pad/%03d' % k for k in range(rng.choice([60, 400])))
+            extra |= set('long/' + 'n' * k for k in (254, 255, 300, 1000))
+            names = sorted(set(names) | extra)
+        if raw_bytes and rng.random() < 0.5:
+            # an approved (or any) name with one byte that is not UTF-8 appended / inserted: a different name
+            base = rng.choice(names)
+            bad = bad_byte       # one value per case: two names that differ only in such a byte read alike in local.<week>.json
+            # in the first line only: that is the part approval looks at (a byte in the frames of an approved
+            # stack is uploaded the way encoding/json renders it, which is not for this property to judge)
+            k = rng.randrange(len(base.split('\n', 1)[0]) + 1)
+            cand = base[:k] + bad + base[k:]
+            if coerced(cand) not in set(coerced(n) for n in names):
+                names = sorted(set(names) | {cand})
+        large = rng.random() < 0.1
+        files.append({'id': i + 1, 'build': b, 'week': rng.randint(1, nweeks), 'expired': (big and i == 0) or rng.random() >= 0.12,
+                      'counts': [{'n': n, 'v': rng.randint(1, 10 ** 8 if large else 50)} for n in names]})
     rates = [c['rate'] for p in cfg['progs'] for c in p['counters'] + p['stacks']] or [d // 2]
     r = rng.choice(rates)
     x = rng.choice([0, 1, d // 2, d - 1, r, max(0, r - 1), min(d - 1, r + 1), rng.randint(0, d - 1)])
